@@ -153,7 +153,7 @@ func randomWalk(t *rapid.T, root V, maxSteps int) []tfSeg {
 		default:
 			return segs
 		}
-		if len(segs) >= 1 && drawInt(t, 0, 3, "stop") == 0 {
+		if len(segs) >= 1 && oneIn(t, 4, "stop") {
 			return segs
 		}
 	}
@@ -277,10 +277,10 @@ func GenC10(t *rapid.T) *C10Case {
 func genC10(t *rapid.T) *C10Case {
 	cfg := tfTreeCfg()
 	class := pick(t, "class", 40, 45, 15)
-	if class == 0 && drawInt(t, 0, 3, "distractors") == 0 {
+	if class == 0 && oneIn(t, 4, "distractors") {
 		// unaddressable distractor keys only together with resolvable paths
 		cfg.KeyGen = func(t *rapid.T) string {
-			if drawInt(t, 0, 3, "dk") == 0 {
+			if oneIn(t, 4, "dk") {
 				return []string{"", "a.b", "#1", ".a", "a#0"}[drawInt(t, 0, 4, "dkk")]
 			}
 			return tfKeyGen(t)
